@@ -39,6 +39,8 @@ def gen_verlet(rng, k, small):
         c["quartic"] = rng.choice([0.5, 2.0])
     if pot == "morse":
         c["morse"] = [rng.choice([0.2, 1.0]), rng.choice([1.0, 1.5]), 2.5]
+    if not small and n >= 2 and random.Random(k * 31 + n).random() < 0.3:
+        c["bonds"] = [[0, 1]] + ([[0, 2]] if n == 3 else [])      # rigid bonds: reversibility and the order hold for constrained dynamics too
     return c
 
 
@@ -131,6 +133,9 @@ def run(res: C.Result):
             n3 = 3 * c["natoms"]
             q0 = [x for row in c["q"] for x in row]
             p0 = [x for row in c["p"] for x in row]
+            if c.get("bonds"):
+                q0, p0 = [fx(x) for x in r["q0"]], [fx(x) for x in r["p0"]]      # the start state after the constraint projection
+                dist["rigid_bond_cases"] = dist.get("rigid_bond_cases", 0) + 1
             q1, p1, q2, p2 = ([fx(x) for x in r[key]] for key in ("q1", "p1", "q2", "p2"))
             dti = fx(r["dt_internal"])
             distinct.add((c["pot"], c["n"], c["dt"], tuple(q0)))
@@ -143,7 +148,7 @@ def run(res: C.Result):
                              f"p={p2[i]!r} (start {-p0[i]!r} after flip)", {"input": c, "observed": {x: r[x] for x in ("q1", "p1", "q2", "p2")}})
                     break
             # ---- harmonic: the proved energy-error bound, per coordinate
-            if c["pot"] == "harmonic":
+            if c["pot"] == "harmonic" and not c.get("bonds"):
                 for i in range(n3):
                     kk, m = c["k"][i // 3], c["masses"][i // 3]
                     r0 = c["r0"][i // 3][i % 3]
@@ -170,7 +175,7 @@ def run(res: C.Result):
                 else:
                     dist["order_skipped_rounding"] += 1
             # ---- correspondence with the Coq model (harmonic wells, few steps)
-            if c["pot"] == "harmonic" and c["n"] <= 3:
+            if c["pot"] == "harmonic" and c["n"] <= 3 and not c.get("bonds"):
                 K = vec_lit([c["k"][i // 3] for i in range(n3)])
                 R0 = vec_lit([c["r0"][i // 3][i % 3] for i in range(n3)])
                 M = vec_lit([c["masses"][i // 3] for i in range(n3)])
@@ -203,6 +208,11 @@ def run(res: C.Result):
                             res.fail("mb:fixed-atom-momentum", f"a fixed atom was given momentum {p[i]!r}", {"input": c, "observed": r})
                         continue
                     m = c["masses"][i // 3]
+                    want = c["xi"][i] * math.sqrt(m * kT)        # component i of the draw belongs to atom i // 3: width sqrt(m kT)
+                    if abs(p[i] - want) > 1e-12 * max(abs(want), 1e-300):
+                        res.fail("mb:width", f"momentum component {i} (atom {i // 3}, mass {m}) is {p[i]!r} for the standard-normal draw {c['xi'][i]!r}: expected draw * sqrt(m kT) = {want!r}",
+                                 {"input": c, "observed": {"p": r["p"], "calls": r["calls"]}})
+                        break
                     tol = 8 * ULP * abs(p[i]) + 1e-300
                     coq.append(f"close_case {len(meta)}%nat (mb_p {C.rlit(m)} ({C.rlit(c['T'])} * kB) {C.rlit(c['xi'][i])}) {C.rlit(p[i])} {C.rlit(tol)}.")
                     meta.append((k, "mb", i))
